@@ -10,6 +10,10 @@ or exactly reversed, orientation signs by exact integer shoelace, idempotence, |
 ring, and that intersects_bounds / point-intersects answers do not change for polygons whose
 holes are wound opposite to their shell (for a hole wound the same way as its shell they do
 change: signature oriented-changes-intersects:same-wound-hole).
+
+Coordinates that are not small integers -- tiny / huge / many-digit floats, integers at the edge
+of their dtype and beyond 2^53 -- are the business of harness/c15_float.py (binary64 model
+Model/FloatOrient.v, exact comparison of values, exact rational oracles), run from run() below.
 """
 import itertools
 import math
@@ -19,6 +23,7 @@ import numpy as np
 from . import common as C
 from . import geomgen as G
 from . import c14_util as U
+from . import c15_float as X
 
 ANCHOR_FILES = ['spatialpandas/geometry/_algorithms/orientation.py',
                 'spatialpandas/geometry/_algorithms/measures.py',
@@ -29,7 +34,10 @@ TRUSTED = ['float64 evaluation of compute_area on integer-valued coordinates is 
            'numpy strided slice assignment (values[a:b:2] = xs[::-1]) as transcribed in Model/Orient.v',
            'pyarrow ListArray.from_arrays(offsets with mask) as transcribed: validity = not isna, '
            'offset 0, the offsets arrays passed',
-           'pyarrow buffers() of arr.__arrow_array__() (harness/c14_util.py export_la / decode)']
+           'pyarrow buffers() of arr.__arrow_array__() (harness/c14_util.py export_la / decode)',
+           'np.float64(values[i]) of a signed-integer buffer rounds to nearest even (Model/FloatOrient.v f_of_Z = '
+           'PrimFloat.of_uint63 of the magnitude); numba emits plain IEEE-754 binary64 operations in source order '
+           '(validated bit for bit by this run and by C14)']
 
 IMPORTS = 'Model.Num Model.Arrow Model.Measures Model.Orient Spec.MeasuresSpec'
 # Only PUBLIC observations can raise an alarm: the DECODED elements (parts, rings, vertices,
@@ -558,7 +566,12 @@ def run(rep):
                 '(holes inside shell, disjoint parts) with all 2^(1+holes) patterns for the intersection '
                 'comparison on a half-integer point grid and 40 boxes; random closed rings; histories: '
                 'already-oriented pieces concatenated with un-oriented ones (_concat_same_type, pd.concat, '
-                'Dask), their slices / takes / copies, then the full checks; non-trivial = '
+                'Dask), their slices / takes / copies, then the full checks; coordinates that are not small '
+                'integers (c15_float.py): the lattice shapes in ~120 value families - float64 / float32 lattice x '
+                '2^e, e = -530..500, with / without a large offset (exact areas from subnormal to 1e300), lon/lat '
+                'decimals with steps 1e-3..1e-12, k/10, k/3, jitter, -0.0, around 2^24 / 2^53 / 1e16, overflow / '
+                'underflow; int64 / int32 / int16 at the edge of the dtype and beyond 2^53 - compared exactly and '
+                'with the binary64 model Model/FloatOrient.v; non-trivial = '
                 'at least one ring reversed; distinct = distinct (kind, subtype, exported buffers)')
     batch = Ctx()
     import numba
@@ -571,15 +584,27 @@ def run(rep):
             else:
                 check_oriented(rep, batch, kind, st, els, nder, intersections=inter)
         run_histories(rep, batch)
+        # coordinates that are not small integers (tiny / huge / many-digit floats, integers at the
+        # edge of their dtype and beyond 2^53): harness/c15_float.py, model Model/FloatOrient.v
+        xctx = X.Ctx()
+        lattice = polygon_space(rep.rng, True, nrings=(1, 2)) + \
+            [valid_polygon(pat[0], pat[1:], 0) for nh in (1, 2, 3)
+             for pat in itertools.product((False, True), repeat=1 + nh)]
+        X.run_exact(rep, xctx, lattice, valid_polygon, tier)
     finally:
         numba.set_num_threads(nthreads)
     batch.flush(rep)
+    xctx.flush(rep)
     rep.extra['coq_cases'] = {'in_scope': len(batch.main.cases), 'internal_out_of_scope': len(batch.oos.cases),
-                              'internal_layout': len(batch.layout.cases)}
+                              'internal_layout': len(batch.layout.cases),
+                              'exact_float': len(xctx.f.cases), 'exact_int': len(xctx.z.cases)}
 
 
 def replay(rep, rp):
     batch = Ctx()
+    if rp.get('exact_values'):
+        X.replay(rep, rp)
+        return _replay_verdict(rep)
     els = U.unjson(rp['elements'])
     if rp.get('history'):
         h = rp['history']
@@ -590,6 +615,10 @@ def replay(rep, rp):
         check_oriented(rep, batch, rp['kind'], rp['subtype'], els, desc=rp.get('derivation') or [],
                        intersections='probe' in rp)
     batch.flush(rep)
+    return _replay_verdict(rep)
+
+
+def _replay_verdict(rep):
     for v in rep.violations:
         print(v['signature'], '-', v['what'])
         for k in ('impl', 'model'):
